@@ -11,15 +11,23 @@ EXPECTED_SENDER_FACTS = {
     "c19_txnPipeFallback": "if ro.cfg.CanTransaction && ro.cfg.Redis.IsCluster() && !ro.bisyncEnabled() { ro.cfg.Redis.GetClusterOptions().HandleMoveErr = false ro.cfg.Redis.GetClusterOptions().HandleAskErr = false if ro.cfg.ReplayPipeline && ro.cfg.EnableResumeFromBreakPoint { ro.logger.Warnf(\"transactional replay to a cluster with resuming from the target : pipeline mode is switched off\") ro.cfg.ReplayPipeline = false } }",
     "c19_doBatch": "{ conn, err := batch.node.getConn() if err != nil { batch.err = err batch.done <- 1 return } exec := util.OpenCircuitExec{} for i := range batch.cmds { exec.Do(func() error { return conn.send(batch.cmds[i].cmd, batch.cmds[i].args...) }) } err = exec.Do(func() error { return conn.flush() }) if err != nil { batch.err = err conn.shutdown() batch.done <- 1 return } for i := range batch.cmds { reply, err := conn.receive() if err != nil { if err == common.ErrNil { continue } batch.err = err conn.shutdown() batch.done <- 1 return } reply, err = bat.cluster.handleReply(batch.node, reply, batch.cmds[i].cmd, batch.cmds[i].args...) if err != nil { batch.err = err conn.shutdown() batch.done <- 1 return } batch.cmds[i].reply, batch.cmds[i].err = reply, err } batch.node.releaseConn(conn) batch.done <- 1 }",
     "c19_receiveReply": "{ defer util.RecoverCallback(func(e interface{}) { batch.err = fmt.Errorf(\"panic : %v\", e) batch.done <- 1 }) if batch.request == nil { batch.err = ErrNoConnection batch.done <- 1 return } replies, err := batch.request.Wait() if err != nil { batch.err = err batch.done <- 1 return } for i := range batch.cmds { reply := replies[i] reply, err = bat.cluster.handleReply(batch.node, reply, batch.cmds[i].cmd, batch.cmds[i].args...) if err != nil { batch.err = err batch.done <- 1 return } batch.cmds[i].reply, batch.cmds[i].err = reply, err } batch.done <- 1 }",
-    "c19_execReturn": "{ if bat.err != nil { return nil, bat.err } if bat == nil || bat.batches == nil || len(bat.batches) == 0 { return []interface{}{}, nil } for i := range bat.batches { go bat.doBatch(&bat.batches[i]) } for i := range bat.batches { <-bat.batches[i].done } var replies []interface{} for _, i := range bat.index { if bat.batches[i].err != nil { return nil, bat.batches[i].err } replies = append(replies, bat.batches[i].cmds[0].reply) bat.batches[i].cmds = bat.batches[i].cmds[1:] } if err := common.CheckRepliesError(replies); err != nil { return nil, err } return replies, nil }",
-    "c19_dispatch": "{ if bat == nil || bat.batches == nil || len(bat.batches) == 0 { return nil } if bat.err != nil { return bat.err } for i := range bat.batches { batch := &bat.batches[i] req := newNodePipelineRequest( func(conn *redisConn) error { exec := util.OpenCircuitExec{} for j := range batch.cmds { cmd := batch.cmds[j] exec.Do(func() error { return conn.send(cmd.cmd, cmd.args...) }) } return exec.Do(func() error { return conn.flush() }) }, func(conn *redisConn) ([]interface{}, error) { replies := make([]interface{}, 0, len(batch.cmds)) for range batch.cmds { reply, err := conn.receive() if err != nil { if err == common.ErrNil { replies = append(replies, nil) continue } return nil, err } replies = append(replies, reply) } return replies, nil }, ) batch.request = req if err := bat.pipeline.getNodePipeline(batch.node).Submit(req); err != nil { batch.err = err return err } } return nil }",
     "c19_submit": "{ select { case <-p.closeCh: return fmt.Errorf(\"node pipeline closed: %s\", p.node.address) case p.reqCh <- req: return nil } }",
     "c19_handleReply": "{ resp := common.CheckReply(reply) switch resp { case common.KrespOK, common.KrespError: return reply, nil case common.KrespMove: if !cluster.handleMoveError { return nil, common.ErrMove } if ret, err := cluster.handleMove(node, reply.(common.RedisError).Error(), cmd, args); err != nil { if sentNoReply(err) { return ret, fmt.Errorf(\"handle move failed[%w]\", err) } return ret, errors.Join(common.ErrMove, fmt.Errorf(\"handle move failed[%w]\", err)) } else { return ret, nil } case common.KrespAsk: if !cluster.handleAskError { return nil, common.ErrAsk } if ret, err := cluster.handleAsk(node, reply.(common.RedisError).Error(), cmd, args); err != nil { if sentNoReply(err) { return ret, fmt.Errorf(\"handle ask failed[%w]\", err) } return ret, errors.Join(common.ErrAsk, fmt.Errorf(\"handle ask failed[%w]\", err)) } else { return ret, nil } case common.KrespConnTimeout: if ret, err := cluster.handleConnTimeout(node, cmd, args); err != nil { return ret, fmt.Errorf(\"handle timeout failed[%w]\", err) } else { return ret, nil } } panic(\"unreachable\") }",
+    # session 5: the order of the entry guards of Exec / Dispatch / Receive (recorded Put error before "no node batch"), read off
+    # the statement order by the extractor and regenerated into Gen/C19Guards.lean (Props.C19.code_guards_good)
+    # session 5: NO body text of Exec / Dispatch / sendFuncOnce's shortcut is pinned any more: their guard order and the shape the
+    # models rely on are regenerated constants (Gen/C19Guards.lean; Props.C19.code_guards_good, code_shapes_good)
+    "c19_execWaitsAll": "true", "c19_execReportsBatchErr": "true", "c19_execChecksReplies": "true",
+    "c19_receiveWaitsAll": "true", "c19_receiveReportsBatchErr": "true", "c19_receiveChecksReplies": "true",
+    "c19_dispatchStopsAtFirstSubmitError": "true", "c19_onceChecksPutErr": "true",
+    "c19_execErrFirst": "true",
+    "c19_dispatchErrFirst": "true",
+    "c19_receiveErrFirst": "true",
     "c19_clusterDo": "{ reply, err := node.do(cmd, args...) if err != nil { if err == common.ErrNil { return nil, err } return nil, &sentNoReplyError{fmt.Errorf(\"Do failed[%v]\", err)} } return cluster.handleReply(node, reply, cmd, args...) }",
 }
 
 PROP = {
-    "lean_modules": ["GunYu.Props.C19", "GunYu.Props.C19Exec"],
+    "lean_modules": ["GunYu.Props.C19", "GunYu.Props.C19Exec", "GunYu.Props.C19Flush", "GunYu.Props.C19Multi", "GunYu.Props.C19TxnPath"],
     "audit_namespaces": ["GunYu.Props.C19"],
     "required_theorems": [
         "GunYu.Props.C19.per_key_order_partial",
@@ -59,6 +67,29 @@ PROP = {
         "GunYu.Props.C19.dispatch_error_prefix",
         "GunYu.Props.C19.dispatch_error_one_node_submits_nothing",
         "GunYu.Props.C19.one_node_batch_submitted_once",
+        "GunYu.Props.C19.puts_err_of_refused",
+        "GunYu.Props.C19.puts_routed_mem",
+        "GunYu.Props.C19.flush_ack_all_routed",
+        "GunYu.Props.C19.code_guards_good",
+        "GunYu.Props.C19.flush_ack_all_routed_code",
+        "GunYu.Props.C19.flush_refused_reported",
+        "GunYu.Props.C19.verdicts_acked_all_routed",
+        "GunYu.Props.C19.lone_refused_acknowledged_when_empty_first",
+        "GunYu.Props.C19.mixed_refused_reported_either_order",
+        "GunYu.Props.C19.once_shortcut_only_empty",
+        "GunYu.Props.C19.once_ack_all_routed",
+        "GunYu.Props.C19.once_unchecked_lone_refused_silent",
+        "GunYu.Props.C19.code_shapes_good",
+        "GunYu.Props.C19.code_once_sound",
+        "GunYu.Props.C19.txn_flush_ack_one_node",
+        "GunYu.Props.C19.txn_flush_two_nodes_reported",
+        "GunYu.Props.C19.answerM_single",
+        "GunYu.Props.C19.answerM_exec_one_slot",
+        "GunYu.Props.C19.answerM_exec_each_key",
+        "GunYu.Props.C19.answerM_exec_at_holder",
+        "GunYu.Props.C19.answerM_crossslot",
+        "GunYu.Props.C19.answerM_split_executes_nowhere",
+        "GunYu.Props.C19.answerM_refines_first",
     ],
     "expected_facts": EXPECTED_SENDER_FACTS,
     "harness": [{"name": "C19", "pkg": "./pkg/redis/client/cluster/", "test": "TestVerifC19",
@@ -124,7 +155,27 @@ PROP = {
             "execution of a key below the stored position is its last command below it; blocking modes; = exec_effective_prefix); "
             "plain-block-crossput (a two-key command over two nodes: ErrCrossSlots from Put, retried three times by the plain sender, F:cs). "
             "txn-dispatch-failed-but-submitted flags the SUBMISSION of a transactional batch whose Dispatch failed - a precursor of the double "
-            "execution the property forbids (the sender dispatches again), stricter than the statement",
+            "execution the property forbids (the sender dispatches again), stricter than the statement. "
+            "SESSION 5 - the verdict of a flush whose commands the router refuses at Put (multi-key DEL / UNLINK / MSET / MSETNX / SMOVE with 2-3 keys on "
+            "different nodes): client harness vf_c19flush_test.go, op c19f: stable three-node double, 2-5 flushes of the real Batch (Exec) or batch2 "
+            "(Dispatch, Receive), plain or with Put(multi)/Put(exec), Put errors not looked at (as sendFuncOnce); one or two flushes hold ONLY refused "
+            "commands (4 modes x 5 commands forced, 40/600 generated, corpus lone-refused-flush.txt), the replay stops at the first reported flush; "
+            "monitor lost-command (an ACKNOWLEDGED flush holds a command no node executed); tie: the verdict list vs ClusterFlush.verdicts with the "
+            "guard order of Exec / Dispatch / Receive REGENERATED from the source (extractor c19GuardOrder -> Gen/C19Guards.lean, statement order, "
+            "not text). C19out forced scenarios lone-cross:<txn|plain>-<block|pipe>:<del|unlink|mset|smove>:<mid|last>[:resume] (10): the real sender "
+            "with BatchCmdCount 1, the refused command in the middle of the stream or last; the client wrapper logs refused Puts (PR), attempts = "
+            "refusals; a refused command that is last ends the input only after the 5th refusal (sendFunc makes at most three attempts per flush: a "
+            "count, not a time); monitors lost-command (run ended without a target error) and position-ahead-of-execution (the IN-MEMORY position "
+            "covers a command no node executed); tie c19o (re-sends, final class). Repaired 510c7bb. "
+            "Multi-key commands at a NODE: the client harness puts a multi-key command with all its keys (`P:<bid>:<cmd>:<k+k+..>:<node>`), a third of "
+            "the multi-key scenarios are dense in MSET of 2-3 keys / SMOVE of one slot; the driver recomputes EVERY answer to such a command with "
+            "ClusterMulti.answerM (CROSSSLOT, TRYAGAIN at the owner and at the importing node, ASK only when every key has gone) - no free error answer "
+            "for them (reject answer-multi) - and runs ClusterRoute over the first key (answerM_refines_first); counters multikey_answer_*. c19f in "
+            "transactional mode: monitors txn-flush-split-over-nodes / txn-path-multi-on-the-wire (txn_flush_ack_one_node). In-flight refresh: schedule "
+            "event `p` (a quarter of the sequential plain scenarios) releases the parked CLUSTER SLOTS at a request count, WHILE a batch runs: the real "
+            "update goroutine installs the map beside the running node batches and then takes the inform of a MOVED answer of the same batch (a refresh "
+            "started by the batch, parked again); after the attempt the harness waits for `r`, makes sure the map is installed and logs `R` (counters "
+            "note_refresh-in-flight / note_refresh-started-by-the-batch); real time, sampled - not enumerated",
     "trusted": [
         "Redis Cluster redirection rules as transcribed in Model/ClusterRoute.lean (answer, tanswer, applyMig) and in the cluster "
         "double vf_c19_double_test.go (getNodeByQuery: MOVED/ASK/ASKING/TRYAGAIN/CROSSSLOT, EXEC re-check over all queued keys, "
@@ -163,7 +214,7 @@ PROP = {
         "What remains: (a) that model is hand-written; its guards (a node processes its queue in order, one key in one node queue of a batch, a redirect "
         "is followed only after the earlier replies of the queue, Exec returns nil only after a good reply to everything, the position batch is put "
         "together after the data batch returned nil, only a redirect error is retried) are tied to the code by trace membership on the runs of both "
-        "harnesses (op c19x) and by pinned source (c19_doBatch, c19_receiveReply, c19_execReturn, c19_positionSplit), not regenerated; (b) its fault "
+        "harnesses (op c19x) and by pinned source (c19_doBatch, c19_receiveReply, c19_positionSplit) plus the REGENERATED shape constants of Exec / Receive / Dispatch / the sender's shortcut (Gen/C19Guards.lean, code_shapes_good: wait for every node batch, first batch error, reply errors, prefix submission), not by a regenerated model; (b) its fault "
         "alphabet has redirects, lost connections / cuts anywhere and failed followed redirects, NOT error replies: a node goes on with the commands "
         "pipelined behind an error reply and the client goes on following later redirects of the queue even after an error reply to a followed one "
         "(cluster.go handleReply returns such a reply as a reply; observed) - the gap this leaves in a key cannot be prevented by a pipelining client. "
@@ -189,8 +240,11 @@ PROP = {
         "resuming from the target the same mechanism moves the IN-MEMORY position (setMemCP when Dispatch returns, before the acknowledgement): not "
         "driven by the harness",
         "the transaction system T* models txnBatcher (used by bisync); the transactional path of sendCmdsBatch goes through Batch/batch2 with "
-        "Put(multi)/Put(exec) that the cluster client drops (one-node constraint, no atomicity): covered by the PLAIN system on traces of the "
-        "harness modes stxn/stxnpipe and by C19out, with no theorem of its own about the one-node constraint",
+        "Put(multi)/Put(exec) that the cluster client drops (one-node constraint, no atomicity): node side covered by the PLAIN system on traces of "
+        "the harness modes stxn/stxnpipe and by C19out; the one-node constraint now has theorems of its own (Props/C19TxnPath.lean: "
+        "txn_flush_ack_one_node - an acknowledged transactional flush sits whole in ONE node batch -, txn_flush_two_nodes_reported) tied by c19f "
+        "(verdicts + monitors: executed at one node, no MULTI/EXEC on the wire); that the router returns no node for multi/exec is observed (monitor), "
+        "not regenerated; atomicity is NOT provided by this path (an error reply in the middle leaves a prefix and a suffix executed)",
         "executed_at_owner is a lemma about the server model (a node only executes what it serves), unexecuted_blocks_ok and "
         "txn_mode_no_double_execution restate admissibility guards of the model through the bookkeeping invariants: the client's obligations "
         "are those guards, checked on the code by trace membership only",
@@ -200,9 +254,23 @@ PROP = {
         "(per_key_order_stmt_false, ping-pong of a slot inside one pipeline)",
         "per-key order of pipelined transactions (txnpipe, window>1) is not a theorem: only sequential use (txn_sequential_order); "
         "C19-F1 (D22) shows it fails in the code",
-        "multi-key commands: the model has single-key commands; TRYAGAIN/CROSSSLOT are the generic `err` answer (executes nothing, "
-        "batch reports an error); checked on the code by the monitor only",
-        "goroutine interleaving of per-node batches and socket timing are sampled by the tie, not enumerated",
+        "multi-key commands: the node's answer to a multi-key command is modelled (Model/ClusterMulti.lean answerM = CROSSSLOT test + the key walk "
+        "`tanswer`; answerM_exec_each_key, answerM_exec_at_holder, answerM_crossslot, answerM_split_executes_nowhere, answerM_refines_first) and every "
+        "such answer of a replayed trace is recomputed by it; the TRANSITION SYSTEMS ClusterRoute / ClusterExec still run over the FIRST key of a "
+        "command (the key the client routes by): the per-key order / never-skip theorems speak about first keys, the order on the other keys of a "
+        "multi-key command is checked by the Go monitors only (keysOf); the double has no DEL / UNLINK (a key list without a place for the id), so "
+        "same-node DEL under migration is not driven - cross-node DEL / UNLINK is (c19f). Also from session 5: a multi-key command the ROUTER refuses "
+        "(keys on different nodes; a second node in a sender-transactional batch) is modelled (Model/ClusterFlush.lean over ClusterSender.put): "
+        "flush_ack_all_routed(_code), flush_refused_reported, verdicts_acked_all_routed, once_shortcut_only_empty, once_ack_all_routed for every "
+        "queue, with the guard order regenerated; what is NOT in that model: the nodes (a stable cluster that executes what it is sent - the node side "
+        "is ClusterExec), multi-key commands on one node over two slots (server CROSSSLOT) and during a migration (TRYAGAIN), and the sender's retry "
+        "loop around `once` (ClusterSender.sendFunc, tied by c19o); `once`'s `chk` is regenerated too (Gen.C19Guards.onceChecksPutErr, code_once_sound)",
+        "goroutine interleaving of per-node batches and socket timing are sampled by the tie, not enumerated; slot-map refresh races: a refresh "
+        "installed while a batch is in flight and a refresh started by a MOVED answer of the running batch are now DRIVEN (schedule event `p`, ~60 "
+        "runs per quick check, all accepted by the model) but sampled in real time: enumeration under synctest needs the cluster client's "
+        "connections on an in-memory transport (node.go dials real TCP; a dial hook in the client would be a change of /repo) - not done; two "
+        "informs racing for the update goroutine are resolved by the non-blocking send of inform() (one is dropped), which the harness exercises "
+        "but does not observe separately",
     ],
 }
 
@@ -214,7 +282,9 @@ MANIFEST = {
             "executed by the slot owner or the ASK-designated importing node, an unexecuted command makes `ok` impossible, transactions execute "
             "at most once per run and in order when used sequentially. Composition over sender segments (retries, restarts from the stored position) "
             "is derived from an operational model of the batch attempt and the blocking sender (refinement to the segment automaton: never skips, stored "
-            "position covered, no re-dispatch of a transactional batch reaches a node twice). Tie: traces of the real client against a 3-4 node cluster double are "
+            "position covered, no re-dispatch of a transactional batch reaches a node twice). A flush is acknowledged only when every command put into it "
+            "sits in a node batch (a multi-key command whose keys live on different nodes is refused at Put and REPORTED, alone in its flush or not; guard "
+            "order of Exec / Dispatch / Receive regenerated from the source). Tie: traces of the real client against a 3-4 node cluster double are "
             "replayed through the model (membership) and per-node/per-key sequences compared; an independent Go monitor checks the property on "
             "the double's execution log.",
     "note": "trusted: Lean kernel, Redis redirection rules (model + double), harness; model hand-written, tied by trace membership; "
